@@ -1122,6 +1122,12 @@ def pair_rules(ctx):
         ctx.check(1 in s.params and built, R + '/BinaryIds-from-set', 'T-CARRY', fb.name, 'BinaryIds::from does not collect the ids into a set', fb.site())
 
 
+# the "only binary variables are used" refusal reads Function::used_decision_variable_ids: its kernels
+# (every id field reaches the set on every path, also when the optional linear part is absent) are decided
+# by the C08.used-kernel family — re-decided here (seed C11-5)
+RELIES_ON = {'C08': ['C08.used-kernel']}
+
+
 def check(ctx):
     export_rules(ctx, 'as_pubo_format', 'BinaryIds', False)
     export_rules(ctx, 'as_qubo_format', 'BinaryIdPair', True)
